@@ -2,7 +2,7 @@
 (* Helpers shared by the property monitors.  A trace is a sequence of observation records (field k).  *)
 (* The same operators are applied to the `obs` history of the model and to traces recorded from the   *)
 (* real code.                                                                                          *)
-EXTENDS Naturals, Integers, Sequences, FiniteSets, TLC, Wire
+EXTENDS Naturals, Integers, Sequences, FiniteSets, TLC, Wire, Reasm
 
 Has(r, f) == f \in DOMAIN r
 Sel(tr, P(_)) == SelectSeq(tr, P)
@@ -21,6 +21,27 @@ FirstIdx(s, P(_)) == IF \E i \in 1..Len(s) : P(s[i]) THEN CHOOSE i \in 1..Len(s)
 
 MessageEventNames == {"text", "binary", "ping", "pong", "closing", "closed"}
 TerminalNames == {"connect_fail", "disconnected"}
+
+\* ---- what the server really delivered ----------------------------------------------------------------
+\* number of stream items (HTTP reply included) whose last byte has been handed to the client
+MaxIc(tr) == LET rs == SelectSeq(tr, LAMBDA r : r.k = "rd" /\ r.what = "data") IN IF rs = <<>> THEN 0 ELSE rs[Len(rs)].ic
+DeliveredItems(tr) == LET sv == Srv(tr) n == MaxIc(tr) IN SubSeq(sv, 1, IF n > Len(sv) THEN Len(sv) ELSE n)
+DeliveredFrames(tr) == SelectSeq(DeliveredItems(tr), LAMBDA r : r.it = "f")
+CfgOf(tr) == LET cs == SelectSeq(tr, LAMBDA r : r.k = "cfg") IN cs[1]
+MessageEvents(tr) == SelectSeq(tr, LAMBDA r : r.k = "ev" /\ r.name \in MessageEventNames)
+\* position (index in tr) of the first record satisfying P, 0 if none
+Pos(tr, P(_)) == FirstIdx(tr, P)
+EvNames(tr) == NamesOf(Events(tr))
+
+\* does message event e carry reference message m (same kind, same content)?
+EventMatches(e, m) ==
+  CASE m.op = OpText  -> /\ e.name = "text" /\ e.isstr /\ e.pl = m.pl
+                         /\ PVIsSmall(m.pl) => e.cps = Decode(m.pl.s)
+    [] m.op = OpBin   -> e.name = "binary" /\ e.isbytes /\ e.pl = m.pl
+    [] m.op = OpPing  -> e.name = "ping" /\ e.isbytes /\ e.pl = m.pl
+    [] m.op = OpPong  -> e.name = "pong" /\ e.isbytes /\ e.pl = m.pl
+    [] m.op = OpClose -> e.name \in {"closing", "closed"} /\ e.code = m.code /\ e.reason.s = m.reason
+    [] OTHER -> FALSE
 
 \* first clause that fails, "ok" if none: cs is a sequence of <<name, BOOLEAN>> pairs
 FirstFailing(cs) == IF \E i \in 1..Len(cs) : ~cs[i][2]
